@@ -229,7 +229,7 @@ def e2e_cases(ctx, rng, count):
     names = live_templates()
     out = []
     for i in range(count):
-        stream = ["bbb", "tears", "syn1", "syn2", "syn3", "syn4", "syn5", "syn6", "syn7", "syn8", "syn9"][i % 11]
+        stream = ["bbb", "tears", "syn1", "syn2", "syn3", "syn4", "syn5", "syn6", "syn7", "syn8", "syn9", "synbig", "syn10"][i % 13]
         man = names[(i // 5) % len(names)]
         opts = {}
         for k, vals in OPTION_POOL:
@@ -286,6 +286,13 @@ def e2e_cases(ctx, rng, count):
                 opts["timeline"] = "1"
             else:
                 opts.pop("timeline", None)
+        if i % 9 == 4 and start != "pow2" and i % 5 != 2:
+            # an explicit start written with a UTC offset: every sign / whole / fractional hour form in turn
+            off = [-330, 120, -570, 345, -30, 840, -720, -60, 765][(i // 9) % 9]
+            age = rng.choice([rng.randrange(70, 4000), rng.randrange(4000, 10 ** 7)])
+            st_ = (now - datetime.timedelta(seconds=age)).replace(microsecond=0)
+            loc = st_ + datetime.timedelta(minutes=off)
+            start = loc.strftime("%Y-%m-%dT%H:%M:%S") + f"{'%2B' if off >= 0 else '-'}{abs(off) // 60:02d}:{abs(off) % 60:02d}"
         if start == "pow2":
             opts["start"] = ast_.strftime("%Y-%m-%dT%H:%M:%SZ")
         elif start == "explicit":
@@ -297,18 +304,18 @@ def e2e_cases(ctx, rng, count):
                 opts["start"] = loc.strftime("%Y-%m-%dT%H:%M:%S") + f"{'%2B' if off >= 0 else '-'}{abs(off) // 60:02d}:{abs(off) % 60:02d}"
             else:
                 opts["start"] = st_.strftime("%Y-%m-%dT%H:%M:%SZ")
-        elif i % 13 == 7 and i % 5 != 2:
+        elif i % 17 == 7 and i % 5 != 2:
             # a very old stream: segment numbers beyond 2^32
             opts["start"] = rng.choice(["1000-01-01T00:00:00Z", "0100-06-01T12:00:00Z", "1479-12-31T23:59:59Z"])
         else:
             opts["start"] = start
-        if stream == "syn9" and (i // 11) % 2 == 0:
+        if stream == "syn9" and (i // 13) % 2 == 0:
             # the stream's stored defaults decide start, depth, leeway and update period: none of them in the URL
             for k in ("start", "depth", "leeway", "mup"):
                 opts.pop(k, None)
             if now.year < 2023:
                 now = now.replace(year=2023)
-        if stream == "syn9" and (i // 11) % 2 == 1:
+        if stream == "syn9" and (i // 13) % 2 == 1:
             # the URL spells options with exactly the SERVER's default values although the stream's stored
             # defaults differ: an explicit value wins over the stream default on the manifest side, so it has
             # to reach the media side as well (it must not be dropped as "equal to the default")
@@ -316,7 +323,7 @@ def e2e_cases(ctx, rng, count):
             sd_ = OptionsRepository.get_default_options()
             opts["depth"] = str(int(sd_.timeShiftBufferDepth))
             opts["leeway"] = str(int(sd_.leeway))
-            opts["start"] = "year" if (i // 22) % 2 == 0 else "epoch"
+            opts["start"] = "year" if (i // 26) % 2 == 0 else "epoch"
             opts.pop("mup", None)
         # (`year` is the server default: the calendar cases leave it out of the URL half of the time)
         q = "&".join(f"{k}={v}" for k, v in opts.items() if not (k == "start" and v == "year" and i % 10 == 2))
@@ -342,7 +349,7 @@ def ch_e2e(ctx) -> Channel:
     default_leeway = int(OptionsRepository.get_default_options().leeway)
     lines, recs = [], []
     with appboot.Clock("2023-01-01T00:00:00Z") as clock:
-        for stream, url, now, opts in e2e_cases(ctx, rng, ctx.scale(90, 900)):
+        for stream, url, now, opts in e2e_cases(ctx, rng, ctx.scale(104, 910)):
             trk = segchecks.tracks(app, stream)
             mpd, status, fetches = segchecks.walk_manifest(app, client, clock, stream, url, now, rng,
                                                            per_rep=ctx.scale(5, 12), want_init=True)
@@ -414,7 +421,9 @@ def matches_finding(finding, failure):
     if finding.get("class") == "event-id-beyond-32-bits":
         import segchecks
         f = failure.get("fetch") or {}
-        t = segchecks.tracks(segchecks.get_app(), f.get("stream", "")).get(f.get("rep_id"))
+        if not f.get("stream"):
+            return False
+        t = segchecks.tracks(segchecks.get_app(), f["stream"]).get(f.get("rep_id"))
         return bool(t and f.get("status") == 400 and
                     segchecks.event_id_overflow(f["manifest"], f["mode"], f["value"], f.get("adv_d"), t))
     if finding.get("class") != "leeway-too-small":
